@@ -1420,6 +1420,12 @@ class Tr:
             return "(List.length %s)" % a, ("U", 64)
         if m in ("clone", "to_owned") and not args:
             return a, ta
+        if m in ("split_at", "split_at_mut") and ta[0] == "S" and len(args) == 1 and recv[0] != "un":
+            n, tn = self.ex(args[0], env, ("U", 64))
+            if tn != ("U", 64):
+                raise Unsupported("split_at argument type")
+            self.guard("decide (%s ≤ List.length %s)" % (n, a))
+            return "((BV.Rs.slice %s 0 %s), (BV.Rs.slice %s %s (List.length %s)))" % (a, n, a, n, a), ("T", [ta, ta])
         if ta[0] == "O":
             if m in ("is_some", "is_ok") and not args:
                 return "(Option.isSome %s)" % a, BOOL
@@ -2509,6 +2515,10 @@ def translate(path, fname, occ, consts, fns, lean_name=None, structs=None, self_
                 continue
             st = pt[2] if pt[0] == "R" else pt
             ln = "self_" if pn == "self" else pn
+            if pn == "self" and item.get("ignore_self"):
+                if any(v == "self" for _, v in toks[toks.index(("id", "self")) + 1:] if True):
+                    raise Unsupported("\"ignore_self\" but the body uses self")
+                continue
             if st[0] == "ST":
                 sname = self_ty if st[1] == "Self" else st[1]
                 if sname in structs_v:
